@@ -86,29 +86,66 @@ def np_dtype_of(name: str) -> np.dtype:
     return ir.DataType[name].numpy()
 
 
-def native_array(rec, dname: str) -> np.ndarray:
-    """numpy / ml_dtypes array holding exactly the stated patterns (built by viewing the pattern bytes)."""
-    cls, dims = rec["cls"], tuple(rec["dims"])
+def _take_view(flat, rec, view: str, split):
+    """The tensor's elements inside the stored buffer `flat` (1-D), as the view kind prescribes, shaped to dims."""
+    n, start, step, dims = rec["n"], rec["start"], rec["step"], tuple(rec["dims"])
+    if view == "chunk" and n > 0:
+        piece = split(flat)  # the second of two equal pieces
+    elif view == "strided":
+        piece = flat[start::step][:n]
+    elif view in ("win", "chunk"):
+        piece = flat[start : start + n]
+    else:
+        piece = flat
+    return piece.reshape(dims)
+
+
+def _flat_native(codes, cls: str, dt) -> np.ndarray:
     if cls == "string":
-        a = np.empty(len(rec["codes"]), dtype=object)
-        for i, c in enumerate(rec["codes"]):
+        a = np.empty(len(codes), dtype=object)
+        for i, c in enumerate(codes):
             a[i] = bytes(c)
-        return a.reshape(dims)
-    dt = np_dtype_of(dname)
+        return a
     if cls in SUB:
-        return np.array(rec["codes"], dtype=np.uint8).view(dt).reshape(dims)
-    flat = b"".join(bytes(c) for c in rec["codes"])
-    return np.frombuffer(flat, dtype=dt).reshape(dims) if flat else np.empty(dims, dtype=dt)
+        return np.array(codes, dtype=np.uint8).view(dt)
+    flat = b"".join(bytes(c) for c in codes)
+    return np.frombuffer(flat, dtype=dt) if flat else np.empty((0,), dtype=dt)
 
 
-def bits_array(rec, dname: str, signed: bool) -> np.ndarray:
-    cls, dims = rec["cls"], tuple(rec["dims"])
+def logical_array(rec, dname: str) -> np.ndarray:
+    """numpy / ml_dtypes array holding exactly the logical tensor's patterns and owning its buffer
+    (built by viewing the pattern bytes); used for the ONNX reference encoder."""
+    cls = rec["cls"]
+    dt = None if cls == "string" else np_dtype_of(dname)
+    return _flat_native(rec["codes"], cls, dt).reshape(tuple(rec["dims"]))
+
+
+def native_array(rec, dname: str, view: str = "own") -> np.ndarray:
+    """numpy / ml_dtypes array for the array-backed representation: the stored buffer, then the view."""
+    cls = rec["cls"]
+    dt = None if cls == "string" else np_dtype_of(dname)
+    flat = _flat_native(rec["scodes"], cls, dt)
+    return _take_view(flat, rec, view, lambda f: np.split(f, 2)[1])
+
+
+def bits_array(rec, dname: str, signed: bool, view: str = "own") -> np.ndarray:
+    cls = rec["cls"]
     if cls in SUB:
         a = np.array(rec["scodes"], dtype=np.uint8)
-        return (a.view(np.int8) if signed else a).reshape(dims)
-    flat = b"".join(bytes(c) for c in rec["scodes"])
-    dt = np.uint16 if cls == "b16" else np.uint8
-    return np.frombuffer(flat, dtype=dt).reshape(dims) if flat else np.empty(dims, dtype=dt)
+        flat = a.view(np.int8) if signed else a
+    else:
+        raw = b"".join(bytes(c) for c in rec["scodes"])
+        dt = np.uint16 if cls == "b16" else np.uint8
+        flat = np.frombuffer(raw, dtype=dt) if raw else np.empty((0,), dtype=dt)
+    return _take_view(flat, rec, view, lambda f: np.split(f, 2)[1])
+
+
+def file_bytes(f) -> bytes:
+    """Expand the specification's abstract file  padding(padlen, cyclic padpat) ++ data ++ tail."""
+    pat = bytes(f["padpat"])
+    k = f["padlen"]
+    pad = (pat * (k // len(pat) + 1))[:k] if k else b""
+    return pad + bytes(f["data"]) + bytes(f["tail"])
 
 
 def entry_value(field: str, e):
@@ -176,19 +213,19 @@ def build_base(rec, base, dname: str, ints, workdir: str) -> Built:
     d = ir.DataType[dname]
     dims = list(rec["dims"])
     if kind == "array":
-        flav = base["flav"]
+        flav, view = base["flav"], base["view"]
         if rec["cls"] == "string":
             if flav == "list":
-                return Built(ir.StringTensor([bytes(c) for c in rec["codes"]], shape=ir.Shape(dims)))
-            return Built(ir.StringTensor(native_array(rec, dname)))
+                return Built(ir.StringTensor([bytes(c) for c in rec["scodes"]], shape=ir.Shape(dims)))
+            return Built(ir.StringTensor(native_array(rec, dname, view)))
         if flav == "native":
-            return Built(ir.Tensor(native_array(rec, dname)))
+            return Built(ir.Tensor(native_array(rec, dname, view)))
         if flav == "ctor":
-            return Built(ir.tensor(native_array(rec, dname), dtype=d))
+            return Built(ir.tensor(native_array(rec, dname, view), dtype=d))
         if flav == "bits":
-            return Built(ir.Tensor(bits_array(rec, dname, False), dtype=d))
+            return Built(ir.Tensor(bits_array(rec, dname, False, view), dtype=d))
         if flav == "sbits":
-            return Built(ir.Tensor(bits_array(rec, dname, True), dtype=d))
+            return Built(ir.Tensor(bits_array(rec, dname, True, view), dtype=d))
         raise ValueError(flav)
     if kind == "packed":
         return Built(ir.PackedTensor(np.array(rec["sbytes"], dtype=np.uint8), d, shape=dims))
@@ -200,7 +237,7 @@ def build_base(rec, base, dname: str, ints, workdir: str) -> Built:
         name = f"x{os.getpid()}_{_counter[0]}.bin"
         path = os.path.join(workdir, name)
         with open(path, "wb") as f:
-            f.write(_b(rec["file"]))
+            f.write(file_bytes(rec["file"]))
         t = ir.ExternalTensor(
             name,
             rec["off"],
@@ -224,14 +261,18 @@ def build_base(rec, base, dname: str, ints, workdir: str) -> Built:
 
         tdt = tensor_adapters.to_torch_dtype(d)
         if rec["cls"] in SUB:
-            tt = torch.tensor(rec["scodes"], dtype=torch.uint8).view(tdt).reshape(dims)
+            flat = torch.tensor(rec["scodes"], dtype=torch.uint8).view(tdt)
         else:
-            flat = b"".join(bytes(c) for c in rec["scodes"])
-            if flat:
-                tt = torch.frombuffer(bytearray(flat), dtype=torch.uint8).view(tdt).reshape(dims)
-            else:
-                tt = torch.empty(dims, dtype=tdt)
-        return Built(ir.tensor(tt, name="t"))
+            raw = b"".join(bytes(c) for c in rec["scodes"])
+            flat = torch.frombuffer(bytearray(raw), dtype=torch.uint8).view(tdt) if raw else torch.empty((0,), dtype=tdt)
+        view = base["view"]
+        tt = _take_view(flat, rec, view, lambda f: torch.chunk(f, 2)[1])
+        # the view must really be what the state says (otherwise the harness, not the library, is at fault)
+        if rec["n"] > 0 and view in ("win", "chunk") and not (tt.storage_offset() > 0 and tt.is_contiguous()):
+            raise AssertionError(f"harness: torch {view} view has storage_offset {tt.storage_offset()}")
+        if rec["n"] > 1 and view == "strided" and tt.is_contiguous():
+            raise AssertionError("harness: torch strided view is contiguous")
+        return Built(ir.tensor(tt, name="t"), aux={"torch": tt})
     raise ValueError(kind)
 
 
@@ -262,6 +303,8 @@ def rep_label(rec) -> str:
     lab = base["kind"]
     if base["kind"] == "array":
         lab += "-" + base["flav"]
+    if base["view"] not in ("-", "own"):
+        lab += "~" + base["view"]
     if base["kind"] == "proto":
         lab += "-" + base["field"]
     if rep["kind"] == "lazy":
@@ -270,12 +313,16 @@ def rep_label(rec) -> str:
 
 
 def tags_of(rec) -> str:
-    """Structural qualifier of a signature: "n0" empty tensor; "end" external tensor whose bytes end the data file;
-    "any" otherwise."""
+    """Structural qualifier of a signature: "n0" empty tensor; for external tensors the page-crossing offset kind
+    ("p4096", ...) or "end" when the tensor's bytes end the data file; "any" otherwise."""
     if rec["n"] == 0:
         return "n0"
-    if rec["base"]["kind"] == "external" and rec["base"]["offk"] in ("eof", "whole"):
-        return "end"
+    if rec["base"]["kind"] == "external":
+        offk = rec["base"]["offk"]
+        if offk.startswith("p"):
+            return offk
+        if not rec["file"]["tail"]:
+            return "end"
     return "any"
 
 
@@ -471,7 +518,7 @@ def _observe(rec, dname, d, t, built, cls, want_bytes, codes, dims, fs):
                     fs.add("violation", "numpy-protoclass", "mismatch", got=patterns_of(tp.numpy(), cls), want=codes)
             except Exception as e:  # noqa: BLE001
                 fs.add("violation", "numpy-protoclass", _exc_name(e), exc=repr(e))
-    if rec["rep"]["kind"] == "array" and rec["rep"]["flav"] == "native":
+    if rec["rep"]["kind"] == "array" and rec["rep"]["flav"] == "native" and rec["rep"]["view"] == "own":
         _onnx_encode(rec, dname, d, cls, want_bytes, codes, dims, fs)
 
 
@@ -508,7 +555,7 @@ def _onnx_decode(rec, proto, cls, codes, dims, fs, obs, klass):
 def _onnx_encode(rec, dname, d, cls, want_bytes, codes, dims, fs):
     """onnx.numpy_helper.from_array on the native array must give the specification's packed bytes."""
     try:
-        p = numpy_helper.from_array(native_array(rec, dname), "t")
+        p = numpy_helper.from_array(logical_array(rec, dname), "t")
     except Exception as e:  # noqa: BLE001
         fs.add("divergence", "spec-vs-onnx-encode", _exc_name(e), exc=repr(e))
         return
@@ -533,7 +580,7 @@ def _onnx_make_tensor(rec, dname, proto, fs):
     if f == "raw_data" or dname in _NO_MAKE_TENSOR:
         return
     try:
-        arr = native_array(rec, dname)
+        arr = logical_array(rec, dname)
         p = onnx_helper.make_tensor("t", int(ir.DataType[dname]), list(rec["dims"]), arr.reshape(-1), raw=False)
     except Exception as e:  # noqa: BLE001
         fs.add("divergence", "spec-vs-onnx-field", _exc_name(e), exc=repr(e))
@@ -670,7 +717,7 @@ def parse_line(line: str):
 
 def stratum(rec) -> tuple:
     base = rec["base"]
-    return (rec["cls"], rec["rep"]["kind"], rec["rep"]["inner"], base["kind"], base["flav"], base["field"], base["offk"], base["lenGiven"], rec["dk"], rec["w"])
+    return (rec["cls"], rec["rep"]["kind"], rec["rep"]["inner"], base["kind"], base["flav"], base["view"], base["field"], base["offk"], base["lenGiven"], rec["dk"], rec["w"])
 
 
 def worker(args):
